@@ -158,6 +158,10 @@ func c12sched(c *core.Ctx) {
 			vsched.Quiesce()
 			// everything was acknowledged by the peer: every completion is due
 			for _, r := range w.Requests {
+				if r.Kind == "pub2" && !r.Acked {
+					vsched.Failf("the PUBREC for request %d (QoS 2 publish) was not answered by a PUBREL: the exchange never completes", r.Idx)
+					return
+				}
 				if r.Kind != "pub0" && !r.Acked {
 					vsched.Failf("harness: request %d (%s) was not acknowledged by the scripted peer", r.Idx, r.Kind)
 					return
